@@ -1,7 +1,7 @@
 (* C18 - Frozen (imported) values behave like ordinary values.
    This file holds only the statement, the property theorems and their non-vacuity examples. *)
 From PlzV Require Import Base.Harness Model.C16_Syntax Model.C16_Ops Model.C16_Prim Model.C16_Eval Model.C16 Model.C18.
-From PlzV Require Import Proof.C18.
+From PlzV Require Import Gen.C18Pins Model.C18_Config Proof.C18 Proof.C18_Sum Proof.C18_Config.
 
 (* For every listed builtin and operator (sorted reversed enumerate any all zip min max map filter reduce len in + ==),
    every heap, every frozen list - and, for len / in / ==, every frozen dict - applying it to the frozen value has the
@@ -31,12 +31,46 @@ Definition C18_partial_statement : Prop :=
   /\ (forall fuel st sl name, existsb (str_eqb name) rejecting = true -> apply_b fuel (BNative name [] []) (VFrozenList sl) st = BRaise)
   /\ (forall fuel st sl other, apply_b fuel (BNative (s "zip") [] [other]) (VFrozenList sl) st = BRaise)
   /\ (forall fuel st sl, fuel <> O -> apply_b fuel BEqSame (VFrozenList sl) st = BVal (OBool false))
-  /\ (forall fuel st sl n, apply_b fuel (BMulR n) (VFrozenList sl) st = BRaise).
+  /\ (forall fuel st sl n, apply_b fuel (BMulR n) (VFrozenList sl) st = BRaise)
+  (* -- values that reach a package WITHOUT the variable freeze of subinclude -- *)
+  (* the result of + : the Go source of `case Add:` (as translated by gotrans) and the model agree on every heap ... *)
+  /\ (forall fuel st sl b, b <> VNilList ->
+        classify_add st (apply_bin Asp fuel Add (VList sl) b st)
+        = add_eval list_add_tree (kind_of b) (Nat.eqb (s_len sl) 0) (right_empty b))
+  (* ... the sum of two lists is an ordinary list in a new array, whichever operand was frozen ... *)
+  /\ (forall fuel st a b v st', is_list a = true -> apply_bin Asp fuel Add a b st = Ok (v, st') ->
+        is_list b = true /\
+        exists r, v = VList r /\ s_arr r = length (arrays st)
+                  /\ list_items Asp st' r = list_items Asp st (slice_of a) ++ list_items Asp st (slice_of b))
+  (* ... so every application to the sum has the same outcome for an imported and for a local operand, on either side *)
+  /\ (forall fuel st sl a other b, is_list a = true ->
+        consume_sum fuel b (apply_bin Asp fuel Add a (VFrozenList sl) st) = consume_sum fuel b (apply_bin Asp fuel Add a (VList sl) st)
+        /\ consume_sum fuel b (apply_bin Asp fuel Add (VFrozenList sl) other st) = consume_sum fuel b (apply_bin Asp fuel Add (VList sl) other st))
+  (* dict | dict: the left wrapper is invisible, a frozen right operand is refused *)
+  /\ (forall fuel st i other, apply_bin Asp fuel Union (VFrozenDict i) other st = apply_bin Asp fuel Union (VDict i) other st)
+  /\ (forall fuel st a j, is_dict a = true -> apply_bin Asp fuel Union a (VFrozenDict j) st = Err EType)
+  (* CONFIG: for every root config, every sequence of CONFIG.setdefault / CONFIG[k] = v a subincluded file performs,
+     every heap: the file's updates always succeed, pyConfig.Freeze (the steps gotrans generated) + Merge hand the
+     including package a CONFIG that reads, for every key and every way of reading, the very same value on the very
+     same heap - hence with the same outcome for every application *)
+  /\ (forall fuel root us st,
+        exists cA cB,
+          apply_upds us (cfg_copy root) = Some cA
+          /\ includer_config config_freeze_steps fuel root cA st = Ok (cB, st)
+          /\ forall how k b fuel',
+               match cfg_read how k cB, cfg_read how k cA with
+               | Ok x, Ok y => apply_b fuel' b x st = apply_b fuel' b y st
+               | Err e1, Err e2 => e1 = e2
+               | OutOfFuel, OutOfFuel => True
+               | _, _ => False
+               end).
 
 Theorem C18_partial : C18_partial_statement.
 Proof.
   exact (conj accepting_indifferent_list (conj accepting_indifferent_dict (conj natives_reject_frozen
-        (conj zip_rejects_frozen (conj eq_never_equal int_times_frozen_rejected))))).
+        (conj zip_rejects_frozen (conj eq_never_equal (conj int_times_frozen_rejected
+        (conj add_agrees_with_source (conj sum_is_fresh_plain_list (conj sum_consumers_indifferent
+        (conj union_erases_freeze_left (conj union_refuses_frozen_right config_consumers_indifferent))))))))))).
 Qed.
 Print Assumptions C18_partial.
 
@@ -57,3 +91,19 @@ Example C18_partial_nonvacuous :
   /\ apply_b 50 (BHof (s "map") f_inc) (unfreeze FROZEN) st0 = BVal (OList false 0 [OInt 4; OInt 2; OInt 3])
   /\ apply_b 50 (BHof (s "map") f_inc) FROZEN st0 = BRaise.
 Proof. vm_compute. repeat split. Qed.
+
+(* Non-vacuity of the follow-up conjuncts: [] + FROZEN on the heap above is the ordinary fresh list [3, 1, 2], sorted()
+   accepts it; the translated tree takes the `pyFrozenList` branch to a concatenation there; a tree with the shortcut
+   `if len(l) == 0 { return l2 }` would not.  A CONFIG entry set to [3, 1] by a subincluded file is read back as the
+   ordinary list - and would come back wrapped if Freeze froze the overlay. *)
+Example C18_sum_nonvacuous :
+  consume_sum 50 (BNative (s "sorted") [] []) (apply_bin Asp 50 Add EMPTY FROZEN st1) = BVal (OList false 0 [OInt 1; OInt 2; OInt 3])
+  /\ consume_sum 50 BEqSame (apply_bin Asp 50 Add EMPTY FROZEN st1) = BVal (OBool true)
+  /\ classify_add st1 (apply_bin Asp 50 Add EMPTY FROZEN st1) = RFresh
+  /\ add_eval list_add_tree (kind_of FROZEN) true false = RFresh
+  /\ add_eval shortcut_tree (kind_of FROZEN) true false = ROperand.
+Proof. vm_compute. repeat split. Qed.
+
+Example C18_config_nonvacuous :
+  demo_read config_freeze_steps = Ok (VList (Slice 0 0 2 2)) /\ demo_read deep_steps = Ok (VFrozenList (Slice 0 0 2 2)).
+Proof. exact deep_freeze_would_wrap. Qed.
